@@ -38,6 +38,9 @@ func FromStream(stream *glyphdata.Stream) (*type1.Font, error) {
 	}
 
 	r, w := io.Pipe()
+	// release the producer goroutine if the parser stops before the end of
+	// the data (malformed font, trailing bytes)
+	defer r.Close()
 	var t1Font *type1.Font
 	var parseErr error
 
